@@ -32,7 +32,8 @@ import RedisVerif.Driver.C01
           (`Props/ServerConn.lean`, `node_end_to_end`: whatever the read segmentation, the partial
           writes and the batching configuration, the written byte stream is the concatenation of the
           frames' replies): hex of that byte stream (canonical order inside unordered replies)
-    ROUTETABLE                                      → the model's routing table (`Model/RouteTable.lean`): Variant:arm:key;…
+    ROUTETABLE                                      → the model's routing table (`Model/RouteTable.lean`): Variant:key;… sorted
+    ROUTEARMS                                       → the variants with an arm of their own in `execute`, sorted
     ROUTEPROBE <N> <Variant> <nf> (S <key> <home> | V <n> (<key> <home>)* | P <n> (<key> <home>)* | X)*
           → which of the N shards get a message when `execute` runs a command of that variant whose
           fields are these (S: a String, V: a Vec<String>, P: the keys of a Vec<(String, SDS)>, X: any
@@ -360,6 +361,7 @@ def routeProbe (n : Nat) (variant : String) (toks : List Grammar.Tok) (homes : L
 def step (d : DState) (line : String) : DState × String :=
   match tokens line with
   | ["ROUTETABLE"] => (d, RouteTable.render)
+  | ["ROUTEARMS"] => (d, RouteTable.renderArms)
   | "ROUTEPROBE" :: _ =>
     match runP parseRouteProbe line with
     | some (n, v, toks, homes) => (d, routeProbe n v toks homes)
